@@ -187,6 +187,15 @@ theorem dfs_statement_of_no_stale (g : Graph) (S : List Nat) (h : Inputs g S)
   rw [q1] at a; rw [q2] at b; rw [q3] at c
   exact ⟨a, b, c⟩
 
+/-- The iterators are not fused: a caller that keeps polling after a `None` (model `pollTrace`,
+tied to the code by the op `dfs_repoll`) receives exactly the items of the corrected variant, hence
+(by `statement_fixed`) a complete depth-first preorder. -/
+theorem repoll_is_fixed (g : Graph) (S : List Nat) :
+    (pollTrace g childU (fuelFixed g S) (new g S ())).filterMap id = (dfsFixed g S).items ∧
+    (pollTrace g childD (fuelFixed g S) (new g S 0)).filterMap id = (dfsDistFixed g S).items ∧
+    (pollTrace g childP (fuelFixed g S) (new g S none)).filterMap id = (dfsPredFixed g S).items :=
+  ⟨pollTrace_items g childU _ _, pollTrace_items g childD _ _, pollTrace_items g childP _ _⟩
+
 /-! ## The reading of "depth-first preorder" -/
 
 /-- Two independent readings of the property's preorder clause annotate every vertex sequence
@@ -219,6 +228,8 @@ example : ValidDfsPreorder witness [0] [0, 1, 2, 3] ∧ ValidDfsPreorder witness
 of length `staleAt = 3`. -/
 example : (dfsFixed witness [0]).verts = [0, 3, 2, 1] ∧
     staleAt witness childU (fuelFixed witness [0]) (new witness [0] ()) = some 3 := by decide
+example : pollTrace witness childU (fuelFixed witness [0]) (new witness [0] ()) =
+    [some (0, ()), some (3, ()), some (2, ()), none, some (1, ())] := by decide
 example : predecessors witness [0] = [none, none, some 3, some 0] ∧
     predecessorsFixed witness [0] = [none, some 0, some 3, some 0] := by decide
 
